@@ -231,7 +231,8 @@ def shard_coupled(desc, rec):
     S, Q = tdfEvents.EventsDataType.singleEvent, tdfEvents.EventsDataType.eventSequence
     ev_cases = [
         (None, S, "refuse"), (None, Q, "refuse"), (3, S, "refuse"), (2.5, Q, "refuse"), (object(), Q, "refuse"),
-        (True, S, "refuse"),
+        (True, S, "refuse"), (np.array(1.5), S, "refuse"), (np.array(1.5), Q, "refuse"), (np.float32(2.0), Q, "refuse"),
+        (np.ma.masked_array(1.5), Q, "refuse"), (np.array(3, dtype="int32"), Q, "refuse"),
         ([], S, "accept"), ([], Q, "accept"), ([1.0], S, "accept"), ([1.0], Q, "accept"), ((2.0,), S, "accept"),
         ([1.0, 2.0], S, "refuse"), ((1.0, 2.0, 3.0), S, "refuse"), (np.array([1.0, 2.0], "float32"), S, "refuse"),
         (np.array([1.0, 2.0]), S, "refuse"), (range(3), S, "refuse"),
